@@ -122,6 +122,15 @@ class Translator:
             pool.add(name.split(".")[2])
         pool.update(kindex.api_key_map.values())
         pool.update(kindex.schema_name_map.keys())
+        try:
+            import kio.records.schema as krs
+            for rn in ("RecordHeader", "Record", "RecordBatch", "NewRecordBatch"):
+                rc = getattr(krs, rn, None)
+                if rc is not None and dataclasses.is_dataclass(rc):
+                    pool.add(rn)
+                    pool.update(f.name for f in dataclasses.fields(rc))
+        except Exception:  # noqa: BLE001
+            pass
         self.names = {n: i for i, n in enumerate(sorted(pool))}
 
     def name_id(self, s: str) -> int:
@@ -290,6 +299,9 @@ def gen_info(tr):
     lines = ["import Kio.Model.Tables\n/-! generated by harness/translate.py — do not edit -/\n"
              "namespace Kio.Generated\nopen Kio\n"]
     # classes, in chunks of CHUNK
+    def hash_generated(c):
+        return getattr(getattr(c, "__hash__", None), "__qualname__", "") == c.__qualname__ + ".__hash__"
+
     cls_terms = []
     for c in tr.order:
         key = tr.key_of[c]
@@ -316,13 +328,42 @@ def gen_info(tr):
         cls_terms.append(
             "  { idx := %d, mod := %s, nameId := %d, qualnameIsName := %s, etype := %s, version := %s, "
             "flexible := %s, apiKey := %s, headerIdx := %s, params := %s, hasSlots := %s, hasDict := %s, "
-            "hashable := %s, fields := [%s] }" % (
+            "hashable := %s, fields := [%s], hashGenerated := %s }" % (
                 tr.idx[c], modkey(modname), tr.name_id(c.__name__), lean_bool(c.__qualname__ == c.__name__),
                 ETYPE.get(etn, ".nested") if etn else ".nested",
                 lean_int(int(getattr(c, "__version__", -1))), lean_bool(getattr(c, "__flexible__", False)),
                 lean_opt(None if ak is None else int(ak), lean_int), lean_opt(hidx),
                 params, lean_bool("__slots__" in vars(c)), lean_bool(has_dict),
-                lean_bool(getattr(c, "__hash__", None) is not None), ", ".join(fields)))
+                lean_bool(getattr(c, "__hash__", None) is not None), ", ".join(fields), lean_bool(hash_generated(c))))
+    # the record classes (kio.records.schema) are value objects too (C15)
+    import kio.records.schema as krs
+    rec_terms = []
+    for rn in ("RecordHeader", "Record", "RecordBatch", "NewRecordBatch"):
+        c = getattr(krs, rn, None)
+        if c is None or not dataclasses.is_dataclass(c):
+            continue
+        p = c.__dataclass_params__
+        params = ("(some ⟨" + ", ".join(lean_bool(getattr(p, a)) for a in (
+            "init", "repr", "eq", "order", "unsafe_hash", "frozen", "match_args", "kw_only",
+            "slots", "weakref_slot")) + "⟩)")
+        try:
+            hints = typing.get_type_hints(c)
+        except Exception:  # noqa: BLE001
+            hints = {}
+        fields = []
+        for f in dataclasses.fields(c):
+            fields.append("⟨" + ", ".join([
+                str(tr.name_id(f.name)), lean_bool(f.init), lean_bool(f.repr), lean_bool(f.compare),
+                lean_bool(f.kw_only), lean_bool(f.name in hints and immutable_annotation(hints[f.name])),
+                lean_bool(f.default_factory is not dataclasses.MISSING)]) + "⟩")
+        rec_terms.append(
+            "  { idx := %d, mod := ⟨0, 0, .nested⟩, nameId := %d, qualnameIsName := %s, etype := .nested, version := -1, "
+            "flexible := false, apiKey := none, headerIdx := none, params := %s, hasSlots := %s, hasDict := %s, "
+            "hashable := %s, fields := [%s], hashGenerated := %s }" % (
+                len(rec_terms), tr.name_id(rn), lean_bool(c.__qualname__ == c.__name__), params,
+                lean_bool("__slots__" in vars(c)), lean_bool(any("__dict__" in vars(k) for k in c.__mro__[:-1])),
+                lean_bool(getattr(c, "__hash__", None) is not None), ", ".join(fields), lean_bool(hash_generated(c))))
+    lines.append("def recordClasses : List ClassInfo := [\n" + ",\n".join(rec_terms) + "]\n")
     nchunks = 0
     for n in range(0, max(len(cls_terms), 1), CHUNK):
         lines.append(f"def classChunk{n // CHUNK} : List ClassInfo := [\n" + ",\n".join(cls_terms[n:n + CHUNK]) + "]\n")
